@@ -3,6 +3,7 @@
 
 cd /verif
 mkdir -p .cache/gen
+python3 -c "import sys,shutil; sys.path.insert(0,\"/verif/tools\"); import check; shutil.copy(check.expand(\"std\")[0], \"/verif/.cache/exp_std.rs\")"
 python3 tools/gen.py .cache/exp_std.rs .cache/gen/psc.rs .cache/gen/psc.meta.json $(ls verus/*.rs.in verus/*.py | sort -t/ -k2) --flag std ${FAMILY:+--family $FAMILY} || exit $?
 cd .cache/gen
 verus psc.rs --output-json --time-expanded --rlimit 40 "$@" > psc.out.json 2> psc.err.txt; rc=$?
